@@ -33,6 +33,12 @@ impl InputPlugin for InjectInputPlugin {
                 )));
             }
         }
+        // indexing a JSON value that is neither an object nor null by key panics
+        if !input.is_object() {
+            return Err(InputPluginError::UnexpectedQueryStructure(String::from(
+                "query is not a JSON object",
+            )));
+        }
         input[self.key.clone()] = self.value.clone();
         Ok(())
     }
